@@ -136,7 +136,7 @@ class Stairs:
         if not is_numeric_dtype(values) or not is_number(initial_value):
             raise ValueError("Invalid dtype for from_values()")
 
-        if not values.index.is_monotonic_increasing:
+        if not values.index.is_monotonic_increasing or not values.index.is_unique:
             raise ValueError("Series index must be monotonic")
 
         series_values_inf_mask = np.isinf(values)
